@@ -407,6 +407,29 @@ def w_F14a_undo():
     return before == after, "after undo %s" % after
 
 
+def w_F14b():
+    """undo of an attribute update that introduced the attribute must leave no explicit None behind
+    (export_to_geff cannot write a None value)"""
+    from funtracks.import_export import export_to_geff
+    from funtracks.user_actions import UserUpdateNodeAttrs
+
+    t = _sol({1: 0, 2: 1}, [(1, 2)])
+    before = {n: dict(t.graph.nodes[n]) for n in t.graph.nodes}
+    UserUpdateNodeAttrs(t, 1, {"c1": 5})
+    t.undo()
+    after = {n: dict(t.graph.nodes[n]) for n in t.graph.nodes}
+    if before != after:
+        return False, "after UserUpdateNodeAttrs(1, {'c1': 5}) and undo node 1 is %s (was %s)" % (after[1], before[1])
+    d = Path(tempfile.mkdtemp(prefix="funverif."))
+    try:
+        export_to_geff(t, d / "out.zarr")
+    except Exception as e:  # noqa: BLE001
+        return False, "export_to_geff after update + undo raises %s" % type(e).__name__
+    finally:
+        shutil.rmtree(d, ignore_errors=True)
+    return True, "attribute removed again; GEFF export works"
+
+
 # ----------------------------------------------------------------------------- C16
 def w_F16a():
     from funtracks.import_export import export_to_geff
@@ -537,6 +560,7 @@ WITNESSES = {
     "F-13a-stray-only": (["C13"], w_F13a_stray_only),
     "F-14a-roundtrip": (["C14"], w_F14a_roundtrip),
     "F-14a-undo": (["C01"], w_F14a_undo),
+    "F-14b": (["C14", "C01"], w_F14b),
     "F-15a": (["C15"], w_F15a),
     "F-16a": (["C16"], w_F16a),
     "F-17a-fuzzy": (["C17"], w_F17a_fuzzy),
